@@ -9,9 +9,9 @@ use servlin::{RequestBody, Response};
 use std::sync::Arc;
 
 #[derive(Clone, Copy, Debug, PartialEq)]
-enum Req { G, S(usize), E(usize), U(usize), C, X }   // GET; sized body; sized + Expect; POST without length (body to end of stream); chunked; malformed
+enum Req { G, S(usize), E(usize), U(usize), C, X, T(usize) }   // T(n): declares n body bytes, sends n-1, then end of stream; GET; sized body; sized + Expect; POST without length (body to end of stream); chunked; malformed
 #[derive(Clone, Copy, Debug, PartialEq)]
-enum Op { RR, BV, BF(u64), WC, WR(u16), SW }
+enum Op { RR, BV, BF(u64), WC, WR(u16), SW, WD(u16) }   // WD: a response carrying its own content-length field (refused before any byte)
 
 fn body_bytes(n: usize, salt: usize) -> Vec<u8> { (0..n).map(|i| b'a' + ((i * 7 + salt * 3) % 26) as u8).collect() }
 fn req_bytes(r: Req, idx: usize) -> Vec<u8> {
@@ -22,6 +22,7 @@ fn req_bytes(r: Req, idx: usize) -> Vec<u8> {
         Req::U(n) => { let mut v = format!("POST /r{idx} HTTP/1.1\r\n\r\n").into_bytes(); v.extend(body_bytes(n, idx)); v }
         Req::C => format!("POST /r{idx} HTTP/1.1\r\ntransfer-encoding: chunked\r\n\r\n3\r\nabc\r\n0\r\n\r\n").into_bytes(),
         Req::X => b"BAD\r\n\r\n".to_vec(),
+        Req::T(n) => { let mut v = format!("POST /r{idx} HTTP/1.1\r\ncontent-length: {n}\r\n\r\n").into_bytes(); v.extend(body_bytes(n.saturating_sub(1), idx)); v }
     }
 }
 fn ser(resp: &Response, close: bool) -> Vec<u8> {
@@ -57,6 +58,8 @@ impl Model {
             Op::SW => { self.ws = WS::Shutdown; Out::Ok }
             Op::WC => self.send(100),
             Op::WR(code) => self.send(code),
+            // misuse: reported by its own error, state and wire untouched
+            Op::WD(_) => match self.ws { WS::None => Out::Err("ResponseAlreadySent"), WS::Shutdown => Out::Err("Disconnected"), WS::Response => Out::Err("DuplicateContentLengthHeader") },
             Op::RR => {
                 match self.ws { WS::Response => return Out::Err("ResponseNotSent"), WS::Shutdown => return Out::Err("Disconnected"), WS::None => {} }
                 match self.rs { RS::Body { .. } => return Out::Err("BodyNotRead"), RS::Shutdown => return Out::Err("Disconnected"), RS::Head => {} }
@@ -73,7 +76,7 @@ impl Model {
                 self.input.drain(..hl);
                 match r {
                     Req::G => Out::Ok,
-                    Req::S(n) | Req::E(n) => { if n > 0 { self.rs = RS::Body { len: Some(n as u64), expect: matches!(r, Req::E(_)), coded: false } } Out::Ok }
+                    Req::S(n) | Req::E(n) | Req::T(n) => { if n > 0 { self.rs = RS::Body { len: Some(n as u64), expect: matches!(r, Req::E(_)), coded: false } } Out::Ok }
                     Req::U(_) => { self.rs = RS::Body { len: None, expect: false, coded: false }; Out::Ok }
                     Req::C => { self.rs = RS::Body { len: None, expect: false, coded: true }; Out::Ok }
                     Req::X => { self.stream_dead = true; Out::Err("MalformedRequestLine") }
@@ -113,19 +116,19 @@ fn err_name(e: &HttpError) -> &'static str {
         HttpError::ResponseAlreadySent => "ResponseAlreadySent", HttpError::Disconnected => "Disconnected", HttpError::ResponseNotSent => "ResponseNotSent",
         HttpError::BodyNotRead => "BodyNotRead", HttpError::BodyNotAvailable => "BodyNotAvailable", HttpError::UnsupportedTransferEncoding => "UnsupportedTransferEncoding",
         HttpError::BodyTooLong => "BodyTooLong", HttpError::Truncated => "Truncated", HttpError::MalformedRequestLine => "MalformedRequestLine",
-        HttpError::InvalidContentLength => "InvalidContentLength", _ => "other",
+        HttpError::InvalidContentLength => "InvalidContentLength", HttpError::DuplicateContentLengthHeader => "DuplicateContentLengthHeader", _ => "other",
     }
 }
 fn show(reqs: &[Req], ops: &[Op]) -> String {
-    let r: Vec<String> = reqs.iter().map(|r| match r { Req::G => "G".into(), Req::S(n) => format!("S{n}"), Req::E(n) => format!("E{n}"), Req::U(n) => format!("U{n}"), Req::C => "C".into(), Req::X => "X".into() }).collect();
-    let o: Vec<String> = ops.iter().map(|o| match o { Op::RR => "RR".into(), Op::BV => "BV".into(), Op::BF(m) => format!("BF{m}"), Op::WC => "WC".into(), Op::WR(c) => format!("WR{c}"), Op::SW => "SW".into() }).collect();
+    let r: Vec<String> = reqs.iter().map(|r| match r { Req::G => "G".into(), Req::S(n) => format!("S{n}"), Req::E(n) => format!("E{n}"), Req::U(n) => format!("U{n}"), Req::C => "C".into(), Req::X => "X".into(), Req::T(n) => format!("T{n}") }).collect();
+    let o: Vec<String> = ops.iter().map(|o| match o { Op::RR => "RR".into(), Op::BV => "BV".into(), Op::BF(m) => format!("BF{m}"), Op::WC => "WC".into(), Op::WR(c) => format!("WR{c}"), Op::SW => "SW".into(), Op::WD(c) => format!("WD{c}") }).collect();
     format!("api reqs={} ops={}", r.join(","), o.join(","))
 }
 fn parse(w: &str) -> (Vec<Req>, Vec<Op>) {
     let rs = w.split("reqs=").nth(1).unwrap().split(' ').next().unwrap();
     let os = w.split("ops=").nth(1).unwrap().split(' ').next().unwrap();
-    let reqs = rs.split(',').filter(|s| !s.is_empty()).map(|t| match &t[..1] { "G" => Req::G, "S" => Req::S(t[1..].parse().unwrap()), "E" => Req::E(t[1..].parse().unwrap()), "U" => Req::U(t[1..].parse().unwrap()), "C" => Req::C, _ => Req::X }).collect();
-    let ops = os.split(',').filter(|s| !s.is_empty()).map(|t| if t == "RR" { Op::RR } else if t == "BV" { Op::BV } else if t == "WC" { Op::WC } else if t == "SW" { Op::SW } else if let Some(m) = t.strip_prefix("BF") { Op::BF(m.parse().unwrap()) } else { Op::WR(t[2..].parse().unwrap()) }).collect();
+    let reqs = rs.split(',').filter(|s| !s.is_empty()).map(|t| match &t[..1] { "G" => Req::G, "S" => Req::S(t[1..].parse().unwrap()), "E" => Req::E(t[1..].parse().unwrap()), "U" => Req::U(t[1..].parse().unwrap()), "T" => Req::T(t[1..].parse().unwrap()), "C" => Req::C, _ => Req::X }).collect();
+    let ops = os.split(',').filter(|s| !s.is_empty()).map(|t| if t == "RR" { Op::RR } else if t == "BV" { Op::BV } else if t == "WC" { Op::WC } else if t == "SW" { Op::SW } else if let Some(m) = t.strip_prefix("BF") { Op::BF(m.parse().unwrap()) } else if let Some(m) = t.strip_prefix("WD") { Op::WD(m.parse().unwrap()) } else { Op::WR(t[2..].parse().unwrap()) }).collect();
     (reqs, ops)
 }
 async fn pair() -> (async_net::TcpStream, async_net::TcpStream) {
@@ -153,6 +156,7 @@ async fn scenario(reqs: Vec<Req>, ops: Vec<Op>, dir: std::path::PathBuf) -> Opti
             Op::SW => { conn.shutdown_write(); Out::Ok }
             Op::WC => match conn.write_http_continue().await { Ok(()) => Out::Ok, Err(e) => Out::Err(err_name(&e)) },
             Op::WR(c) => match conn.write_response(&response(*c)).await { Ok(()) => Out::Ok, Err(e) => Out::Err(err_name(&e)) },
+            Op::WD(c) => match conn.write_response(&response(*c).with_header("content-length", "1".try_into().unwrap())).await { Ok(()) => Out::Ok, Err(e) => Out::Err(err_name(&e)) },
             Op::RR => match conn.read_request().await { Ok(_) => Out::Ok, Err(e) => Out::Err(err_name(&e)) },
             Op::BV => match conn.read_body_to_vec().await { Ok(RequestBody::Vec(v)) => Out::OkBody(v), Ok(_) => Out::Err("other-variant"), Err(e) => Out::Err(err_name(&e)) },
             Op::BF(mx) => match conn.read_body_to_file(&dir, *mx).await { Ok(RequestBody::TempFile(t, _)) => Out::OkBody(std::fs::read(t.path()).unwrap_or_default()), Ok(_) => Out::Err("other-variant"), Err(e) => Out::Err(err_name(&e)) },
@@ -192,8 +196,8 @@ fn main() {
         match r { Some(m) => { println!("WITNESS {m}"); std::process::exit(1) } None => { println!("OK witness no longer fails"); std::process::exit(0) } }
     }
     let thorough = args.iter().any(|a| a == "--thorough");
-    let alphabet = [Op::RR, Op::BV, Op::BF(2), Op::BF(1000), Op::WC, Op::WR(100), Op::WR(200), Op::WR(500), Op::SW];
-    let req_lists: Vec<Vec<Req>> = vec![vec![], vec![Req::G], vec![Req::G, Req::G], vec![Req::S(3), Req::G], vec![Req::E(3), Req::G], vec![Req::U(5)], vec![Req::C], vec![Req::S(5)], vec![Req::E(4), Req::S(3)], vec![Req::X], vec![Req::G, Req::U(3)], vec![Req::S(3)]];
+    let alphabet = [Op::RR, Op::BV, Op::BF(2), Op::BF(1000), Op::WC, Op::WR(100), Op::WR(200), Op::WR(500), Op::SW, Op::WD(503)];
+    let req_lists: Vec<Vec<Req>> = vec![vec![], vec![Req::G], vec![Req::G, Req::G], vec![Req::S(3), Req::G], vec![Req::E(3), Req::G], vec![Req::U(5)], vec![Req::C], vec![Req::S(5)], vec![Req::E(4), Req::S(3)], vec![Req::X], vec![Req::G, Req::U(3)], vec![Req::S(3)], vec![Req::T(4)], vec![Req::G, Req::T(1)]];
     let mut n = 0u64; let mut found: Vec<String> = Vec::new();
     let depth = if thorough { 4 } else { 3 };
     for reqs in &req_lists {
@@ -208,7 +212,8 @@ fn main() {
     }
     // longer sequences around the sensible orders (read, body, respond, read again ...) with one deviation each
     let good: Vec<Op> = vec![Op::RR, Op::BV, Op::WR(200), Op::RR, Op::WR(200), Op::RR];
-    for reqs in &req_lists { for pos in 0..good.len() { for o in alphabet {
+    let alphabet2: Vec<Op> = alphabet.iter().copied().chain([Op::WD(200), Op::WD(100)]).collect();
+    for reqs in &req_lists { for pos in 0..good.len() { for o in alphabet2.iter().copied() {
         let mut ops = good.clone(); ops[pos] = o;
         n += 1; if let Some(m) = run(reqs.clone(), ops) { if found.len() < 6 { found.push(m) } }
         let mut ops2 = good.clone(); ops2.insert(pos, o);
